@@ -60,6 +60,7 @@ Definition op_bundle_write (args : list sx) : sx :=
   | b :: _ =>
       match bundle_of_sx b with
       | Some b' =>
+          if b_write_taint b' then unknown_sx else
           match b_write b' with
           | Ok bs => SL [sym "ok"; SB bs; sN (lenN bs)]
           | Err => SL [sym "err"; SZ 0]
@@ -81,6 +82,30 @@ Definition op_bundle_read (args : list sx) : sx :=
   | _ => bad_args
   end.
 
+(* bundle_read_edit bytes tab i : Read, then edit exchange i of the RESULT in place (add a
+   response header, flip the first body byte); every other exchange must be unaffected. *)
+Fixpoint edit_nth (i : nat) (xs : list bexchange) : list bexchange :=
+  match xs, i with
+  | [], _ => []
+  | x :: t, O =>
+      {| bx_url := bx_url x; bx_status := bx_status x;
+         bx_hdr := hdr_add (bx_hdr x) (s2b "X-Verif-Edit") (s2b "1");
+         bx_body := match bx_body x with c :: r => N.lxor c 1 :: r | [] => [] end |} :: t
+  | x :: t, S j => x :: edit_nth j t
+  end.
+Definition op_bundle_read_edit (args : list sx) : sx :=
+  match args with
+  | [SB bs; SL tab; SZ i] =>
+      match b_read (x509_ok_of tab) bs with
+      | Ok b => if b_taint b then unknown_sx
+                else SL [sym "ok"; bundle_sx {| b_ver := b_ver b; b_primary := b_primary b; b_manifest := b_manifest b;
+                                                b_sigs := b_sigs b; b_exchanges := edit_nth (Z.to_nat i) (b_exchanges b);
+                                                b_taint := false |}]
+      | r => sx_of_R bundle_sx r
+      end
+  | _ => bad_args
+  end.
+
 (* bundle_cycle: write -> read -> write -> read -> write; the second and third
    serializations must coincide *)
 Definition op_bundle_cycle (args : list sx) : sx :=
@@ -88,6 +113,7 @@ Definition op_bundle_cycle (args : list sx) : sx :=
   | [b; SL tab] =>
       match bundle_of_sx b with
       | Some b0 =>
+          if b_write_taint b0 then unknown_sx else
           match b_write b0 with
           | Ok bs1 =>
               match b_read (x509_ok_of tab) bs1 with
@@ -186,6 +212,7 @@ Definition op_cw_writes (args : list sx) : sx :=
 Definition dispatch_bundle (op : bytes) (args : list sx) : option sx :=
   if bytes_eqb op (s2b "bundle_write") then Some (op_bundle_write args)
   else if bytes_eqb op (s2b "bundle_read") then Some (op_bundle_read args)
+  else if bytes_eqb op (s2b "bundle_read_edit") then Some (op_bundle_read_edit args)
   else if bytes_eqb op (s2b "bundle_cycle") then Some (op_bundle_cycle args)
   else if bytes_eqb op (s2b "entries_order") then Some (op_entries_order args)
   else if bytes_eqb op (s2b "variants") then Some (op_variants args)
